@@ -1,8 +1,8 @@
 package main
 
 import (
-	"go/ast"
 	"fmt"
+	"go/ast"
 	"go/constant"
 	"go/token"
 	"go/types"
@@ -95,12 +95,12 @@ func loadC14Consts(p *Prog, r *RuleResult) *c14Consts {
 
 // node allocations that are syntax of a feature by themselves
 var c14AllocFeature = map[string]string{
-	"js_ast.EArrow":  "Arrow",
-	"js_ast.EBigInt": "Bigint",
-	"js_ast.ESpread": "ArraySpread",
-	"js_ast.EAwait":  "AsyncAwait",
-	"js_ast.EYield":  "Generator",
-	"js_ast.SForOf":  "ForOf",
+	"js_ast.EArrow":    "Arrow",
+	"js_ast.EBigInt":   "Bigint",
+	"js_ast.ESpread":   "ArraySpread",
+	"js_ast.EAwait":    "AsyncAwait",
+	"js_ast.EYield":    "Generator",
+	"js_ast.SForOf":    "ForOf",
 	"js_ast.ETemplate": "TemplateLiteral",
 }
 
@@ -263,26 +263,26 @@ func init() {
 }
 
 var c14GateExceptions = ExcTable{
-	"js_parser.(*parser).visitAndAppendStmt SLocal{Kind: LocalConst}":    "rewrites an existing `using x = null` declaration (same statement the user wrote); the case then passes the kind through p.selectLocalKind, which turns let/const into var when unsupported (verified: --minify-syntax --target=chrome48 prints var)",
-	"js_parser.(*parser).visitAndAppendStmt SLocal{Kind: LocalUsing}":    "downgrades an existing `await using` to `using` in dead code / restores `using` after the const optimisation: same Using feature the input already has (the parser gated it), lowered later by lowerUsingDeclarationContext when unsupported",
-	"js_parser.(*parser).visitAndAppendStmt SLocal{Kind: LocalUsing} #2": "downgrades an existing `await using` to `using` in dead code / restores `using` after the const optimisation: same Using feature the input already has (the parser gated it), lowered later by lowerUsingDeclarationContext when unsupported",
-	"js_parser.(*parser).visitAndAppendStmt SLocal{Kind: LocalUsing} #3": "downgrades an existing `await using` to `using` in dead code / restores `using` after the const optimisation: same Using feature the input already has (the parser gated it), lowered later by lowerUsingDeclarationContext when unsupported",
-	"js_ast.ConvertBindingToExpr &js_ast.ESpread{}":                                 "preserving: built only for the last item of a BArray whose HasSpread is set, i.e. the input already had a rest/spread element there",
-	"js_ast.InlinePrimitivesIntoTemplate &js_ast.ETemplate{}":                       "preserving: rebuilds the *ETemplate it was given with fewer parts (same node kind in, same node kind out)",
-	"js_parser.(*parser).captureValueWithPossibleSideEffects$7 &js_ast.EBigInt{}":   "preserving: closure created in the `case *js_ast.EBigInt` arm; copies the existing literal",
-	"js_parser.(*parser).lowerFunction &js_ast.ESpread{}":                            "preserving: forwards the function's own rest argument (only when *hasRestArg)",
-	"js_parser.(*parser).lowerFunction Fn{IsGenerator: true}":                        "lowering target: async functions are lowered to generators only after markLoweredSyntaxFeature(AsyncAwait, ..., Generator) has reported an error when generators are unsupported too",
-	"js_parser.(*parser).maybeLowerAwait &js_ast.EYield{}":                           "lowering target of await inside a lowered async function; the enclosing function was turned into a generator under the same check (see lowerFunction)",
-	"js_parser.(*parser).maybeLowerAwait &js_ast.EYield{} #2":                        "lowering target of await inside a lowered async function; the enclosing function was turned into a generator under the same check (see lowerFunction)",
-	"js_parser.(*parser).insertStmtsAfterSuperCall &js_ast.EArrow{}":                 "class-field lowering inside a derived-class constructor (needs class syntax, which every engine/ES target has later than arrows and spread); could only matter under a `supported` override and could not be reproduced",
-	"js_parser.(*parser).insertStmtsAfterSuperCall &js_ast.ESpread{}":                "class-field lowering inside a derived-class constructor (needs class syntax, which every engine/ES target has later than arrows and spread); could only matter under a `supported` override and could not be reproduced",
-	"js_parser.(*parser).visitStmts SLocal{Kind: LocalLet}":                          "temporaries that may be captured inside a loop; requested only by class lowering (innerClassNameRef), which needs class syntax and therefore `let`; could only matter under a `supported` override and could not be reproduced (a user-written let is rejected first)",
-	"linker.(*linkerContext).generateCodeForLazyExport &js_ast.ETemplate{}":          "CSS-modules `composes`: every part is a local-name string after renaming, and the printer folds such templates into a plain string (InlinePrimitivesIntoTemplate) — verified for same-file and cross-file composes with --target=ie11",
+	"js_parser.(*parser).visitAndAppendStmt SLocal{Kind: LocalConst}":             "rewrites an existing `using x = null` declaration (same statement the user wrote); the case then passes the kind through p.selectLocalKind, which turns let/const into var when unsupported (verified: --minify-syntax --target=chrome48 prints var)",
+	"js_parser.(*parser).visitAndAppendStmt SLocal{Kind: LocalUsing}":             "downgrades an existing `await using` to `using` in dead code / restores `using` after the const optimisation: same Using feature the input already has (the parser gated it), lowered later by lowerUsingDeclarationContext when unsupported",
+	"js_parser.(*parser).visitAndAppendStmt SLocal{Kind: LocalUsing} #2":          "downgrades an existing `await using` to `using` in dead code / restores `using` after the const optimisation: same Using feature the input already has (the parser gated it), lowered later by lowerUsingDeclarationContext when unsupported",
+	"js_parser.(*parser).visitAndAppendStmt SLocal{Kind: LocalUsing} #3":          "downgrades an existing `await using` to `using` in dead code / restores `using` after the const optimisation: same Using feature the input already has (the parser gated it), lowered later by lowerUsingDeclarationContext when unsupported",
+	"js_ast.ConvertBindingToExpr &js_ast.ESpread{}":                               "preserving: built only for the last item of a BArray whose HasSpread is set, i.e. the input already had a rest/spread element there",
+	"js_ast.InlinePrimitivesIntoTemplate &js_ast.ETemplate{}":                     "preserving: rebuilds the *ETemplate it was given with fewer parts (same node kind in, same node kind out)",
+	"js_parser.(*parser).captureValueWithPossibleSideEffects$7 &js_ast.EBigInt{}": "preserving: closure created in the `case *js_ast.EBigInt` arm; copies the existing literal",
+	"js_parser.(*parser).lowerFunction &js_ast.ESpread{}":                         "preserving: forwards the function's own rest argument (only when *hasRestArg)",
+	"js_parser.(*parser).lowerFunction Fn{IsGenerator: true}":                     "lowering target: async functions are lowered to generators only after markLoweredSyntaxFeature(AsyncAwait, ..., Generator) has reported an error when generators are unsupported too",
+	"js_parser.(*parser).maybeLowerAwait &js_ast.EYield{}":                        "lowering target of await inside a lowered async function; the enclosing function was turned into a generator under the same check (see lowerFunction)",
+	"js_parser.(*parser).maybeLowerAwait &js_ast.EYield{} #2":                     "lowering target of await inside a lowered async function; the enclosing function was turned into a generator under the same check (see lowerFunction)",
+	"js_parser.(*parser).insertStmtsAfterSuperCall &js_ast.EArrow{}":              "class-field lowering inside a derived-class constructor (needs class syntax, which every engine/ES target has later than arrows and spread); could only matter under a `supported` override and could not be reproduced",
+	"js_parser.(*parser).insertStmtsAfterSuperCall &js_ast.ESpread{}":             "class-field lowering inside a derived-class constructor (needs class syntax, which every engine/ES target has later than arrows and spread); could only matter under a `supported` override and could not be reproduced",
+	"js_parser.(*parser).visitStmts SLocal{Kind: LocalLet}":                       "temporaries that may be captured inside a loop; requested only by class lowering (innerClassNameRef), which needs class syntax and therefore `let`; could only matter under a `supported` override and could not be reproduced (a user-written let is rejected first)",
+	"linker.(*linkerContext).generateCodeForLazyExport &js_ast.ETemplate{}":       "CSS-modules `composes`: every part is a local-name string after renaming, and the printer folds such templates into a plain string (InlinePrimitivesIntoTemplate) — verified for same-file and cross-file composes with --target=ie11",
 }
 
 func init() {
 	register(&Property{
-		ID: "C14",
+		ID:          "C14",
 		Explanation: "Decides structural necessary conditions of 'output only uses syntax available in the target': R1 every construction of a newer-syntax node outside the parse pass (nullish/logical-assignment/exponent operators, optional chains, templates, arrows, let/const/using, bigint, spread, async/generator, for-of) is dominated by a test that the matching compat.JSFeature bit is not unsupported — in the function itself, in every caller, through a gate wrapper, or preserves an existing node of the same kind — or is a reviewed entry; R2 markSyntaxFeature reports on every path on which the feature is unsupported and every JSFeature constant is consulted by some gate; R3 the feature tables are complete and `supported` overrides are applied in both directions wherever options are built; R4 the embedded runtime text only uses newer syntax inside feature-conditional branches. R6 export-name-diagnostic-scope: the string-export-name diagnostic is gated on IsEntryPoint(), not on user-specified entry points only. R7 cache-hit-replays-diagnostics (shared with C09/R9). R8 implied-features-unmasked (shared with C05/R5). R9 static-block-assign-gate: the js_ast.Property fields read by the conditions that force lowerAllStaticFields under unsupported ClassStaticBlocks are a subset of those read by the conditions that set staticFieldToBlockAssign. R10 implied-features-follow-effective-set: the condition under which fixInvalidUnsupportedJSFeatureOverrides adds implied bits reads options.UnsupportedJSFeatures. NOT covered: that each lowering emits only older syntax in the JS text of runtime helpers beyond the lexical check; engine-version table values.",
 		Run: func(p *Prog, tier string) []*RuleResult {
 			return []*RuleResult{c14IntroduceGate(p), c14DiagnoseOrLower(p), c14Tables(p), c14RuntimeText(p), c14RuntimeFeatures(p), c14ExportNameScope(p), c09CacheHitReplay(p, "C14/R7 cache-hit-replays-diagnostics"), c05ImpliedFeaturesUnmasked(p, "C14/R8 implied-features-unmasked"), c14StaticBlockAssignGate(p), c14ImpliedFollowEffective(p)}
@@ -683,7 +683,6 @@ func c14RuntimeText(p *Prog) *RuleResult {
 	}
 	return r
 }
-
 
 // R5: the runtime library is parsed and selected for exactly the build's unsupported-feature set.
 func c14RuntimeFeatures(p *Prog) *RuleResult {
